@@ -94,6 +94,7 @@ fn any_position(rng: &mut Rng) -> (f64, f64, &'static str) {
 pub fn hash_event(depth: u8, lon: f64, lat: f64, class: &str) -> Value {
   let n = 1u32 << depth;
   let f = face_of(n, lon, lat);
+  crate::prime::hash(depth, lon, lat, false);
   let r = guarded(|| nested::hash(depth, lon, lat));
   json!({"ev": "hash", "d": depth, "f": f.json(), "fk": f.kind(), "p": if r.is_none() { 1 } else { 0 },
          "r": r.map_or(json!([]), |h| cell_json(depth, h)), "cls": class, "in": pos_str(lon, lat)})
@@ -159,7 +160,11 @@ pub fn record_c02(rng: &mut Rng, count: u64, out: &mut Out) {
     // the cell number of a position is also returned by hash_with_dxdy (an independent, projection based algorithm): one chain
     // in four is recorded through it
     let via_dxdy = k % 4 == 3;
+    // one chain in three is interleaved with primer calls on related positions / depths (prime.rs): the cell numbers of ONE position
+    // must be nested whatever was hashed in between
+    let interleaved = k % 3 == 2;
     for depth in 0..=29u8 {
+      if interleaved { crate::prime::hash(depth, lon, lat, true); }
       let r = if via_dxdy { guarded(|| nested::hash_with_dxdy(depth, lon, lat).0) } else { guarded(|| nested::hash(depth, lon, lat)) };
       match r {
         Some(h) if h < n_hash(depth) => cs.push(cell_json(depth, h)),
@@ -175,6 +180,7 @@ pub fn record_c02(rng: &mut Rng, count: u64, out: &mut Out) {
 pub fn neigh_event(depth: u8, c: Cell) -> Value {
   let h = hash_of_cell(depth, c);
   let layer = nested::get_or_create(depth);
+  crate::prime::cell(depth, h);
   let m = guarded(|| layer.neighbours(h, false));
   let mc = guarded(|| layer.neighbours(h, true));
   let mut jm = serde_json::Map::new();
@@ -300,8 +306,10 @@ pub fn edges_event(depth: u8, c: Cell, dd: u8) -> Value {
   let layer = nested::get_or_create(depth);
   let mut p = 0;
   let mut take = |r: Option<Box<[u64]>>| -> Vec<u64> { match r { Some(v) => v.to_vec(), None => { p += 1; vec![] } } };
+  crate::prime::edges(depth, h, dd);
   let ie = take(guarded(|| Layer::internal_edge(h, dd)));
   let ies = take(guarded(|| Layer::internal_edge_sorted(h, dd)));
+  crate::prime::edges(depth, h, dd);
   let ee = take(guarded(|| layer.external_edge(h, dd)));
   let ees = take(guarded(|| layer.external_edge_sorted(h, dd)));
   // free-function variants must agree with the methods (and not panic for depth + delta <= 29)
@@ -486,6 +494,7 @@ pub fn hash_dxdy_event(depth: u8, lon: f64, lat: f64, class: &str) -> Value {
   let n = 1u32 << depth;
   let f = face_of(n, lon, lat);
   let layer = nested::get_or_create(depth);
+  crate::prime::hash(depth, lon, lat, false);
   let r = guarded(|| layer.hash_with_dxdy(lon, lat));
   let rh = guarded(|| layer.hash(lon, lat));
   match r {
@@ -553,6 +562,7 @@ pub fn bilinear_event(depth: u8, lon: f64, lat: f64, class: &str) -> Value {
   let n = 1u32 << depth;
   let f = face_of(n, lon, lat);
   let layer = nested::get_or_create(depth);
+  crate::prime::bilinear(depth, lon, lat);
   let r = guarded(|| layer.bilinear_interpolation(lon, lat));
   let hd = guarded(|| layer.hash_with_dxdy(lon, lat));
   match (r, hd) {
@@ -621,8 +631,10 @@ pub fn edges_big_event(rng: &mut Rng, depth: u8, c: Cell, dd: u8) -> Value {
   let m = 1u64 << dd;
   let layer = nested::get_or_create(depth);
   let mut p = 0;
+  crate::prime::edges(depth, h, dd);
   let ie = guarded(|| Layer::internal_edge(h, dd)).map(|v| v.to_vec()).unwrap_or_else(|| { p += 1; vec![] });
   let ies = guarded(|| Layer::internal_edge_sorted(h, dd)).map(|v| v.to_vec()).unwrap_or_else(|| { p += 1; vec![] });
+  crate::prime::edges(depth, h, dd);
   let ee = guarded(|| layer.external_edge(h, dd)).map(|v| v.to_vec()).unwrap_or_else(|| { p += 1; vec![] });
   let ees = guarded(|| layer.external_edge_sorted(h, dd)).map(|v| v.to_vec()).unwrap_or_else(|| { p += 1; vec![] });
   let f_ie = guarded(|| nested::internal_edge(depth, h, dd));
